@@ -66,6 +66,13 @@ def main():
         subprocess.run(['go', 'build', '-o', '/tmp/mutgen', '.'], cwd='/verif/tools/mutgen', env=ENV, check=True)
         muts = [json.loads(l) for l in subprocess.run(['/tmp/mutgen', '/repo'], capture_output=True, text=True, check=True).stdout.splitlines()]
         fn, out = stageA, f'{OUT}/stageA.jsonl'
+    elif stage == 'R':
+        # re-analyse the survivors of stage B with the current checker
+        muts = [json.loads(l) for l in open(f'{OUT}/stageB.jsonl') if json.loads(l)['tests'] == 'survived']
+        for m in muts:
+            m.pop('tests', None)
+        fn, out = stageA, f'{OUT}/stageR.jsonl'
+        open(out, 'w').close()
     else:
         want = 'silent' if stage == 'B' else 'reported'   # stage C: do the tests notice the mutants the checker reports?
         muts = [json.loads(l) for l in open(f'{OUT}/stageA.jsonl') if json.loads(l)['result'] == want]
@@ -74,7 +81,7 @@ def main():
             done = {json.loads(l)['id'] for l in open(f'{OUT}/stage{stage}.jsonl')}
         muts = [m for m in muts if m['id'] not in done]
         fn, out = stageB, f'{OUT}/stage{stage}.jsonl'
-    with mp.Pool(workers) as pool, open(out, 'a' if stage != 'A' else 'w') as f:
+    with mp.Pool(workers) as pool, open(out, 'a' if stage in ('B','C','R') else 'w') as f:
         for i, r in enumerate(pool.imap_unordered(fn, muts)):
             f.write(json.dumps(r) + '\n'); f.flush()
             if i % 50 == 0:
